@@ -73,6 +73,97 @@ PROPS = {
                         "or logically equivalent to them on the script (z3, tier 2)"],
         "n": {"quick": 200, "thorough": 3000},
     },
+    "C07": {
+        "theorems": ["incLoop_spec", "C07_anytime", "C07_optimal"],
+        "profiles": [("obj", 1.0)],
+        "relevant": lambda o: owner_in(o, ("objective", "indicator:")),
+        "spec": None,
+        "exact": True,
+        "sm_focus": "solve",
+        "n_sm": {"quick": 300, "thorough": 4000}, "n_run": {"quick": 30, "thorough": 400},
+        "run_check": __import__("harness.solverprops", fromlist=["x"]).run_c07,
+        "nontrivial": lambda s: any(d["op"] == "objective" for d in s),
+        "rule": "ENC: scripts of the 'obj' profile (all built-in objectives, user indicators, weights, several objectives) "
+                "compared on the objective plumbing; SM: random configurations (optimizer x priority x max_iter 1..5 x "
+                "max_time) x call sequences x scripted oracle answers (sat values incl. the declared bounds, unsat, "
+                "unknown, durations) — the real solver object's calls on z3 must equal the model's; RUN: small bounded "
+                "problems solved by both optimisers with real z3, then a fresh z3 query asks for a strictly better valid "
+                "schedule; non-trivial = has an objective / more than one call; distinct = distinct case text",
+        "assumptions": ["z3 answers are consistent with the assertion stack (hypothesis ConsistentAns of the theorems)",
+                        "z3.Optimize returns an optimum of the objective handed to minimize/maximize (trusted; sampled by RUN)",
+                        "objectives are bounded (a horizon is declared); declared indicator bounds are true bounds"],
+        "n": {"quick": 80, "thorough": 1500},
+    },
+    "C12": {
+        "theorems": ["blockingClause_eval", "C12_distinct", "C12_exhaustive", "C12_variable", "C13_base"],
+        "profiles": [("core", 1.0)],
+        "relevant": lambda o: False,
+        "spec": None,
+        "sm_profiles": ["taskc", "core", "obj"], "run_profiles": ["taskc", "core"],
+        "n_sm": {"quick": 120, "thorough": 2500}, "n_run": {"quick": 20, "thorough": 300},
+        "run_check": __import__("harness.solverprops", fromlist=["x"]).run_c12,
+        "nontrivial": lambda s: True,
+        "rule": "SM: call sequences with find_another_solution / find_another_solution_for_variable under a scripted "
+                "oracle (models with random starts, ends and scheduled flags): the blocking clauses added by the real "
+                "code must equal the model's; RUN: small bounded problems (horizon 6..12, 2..5 tasks, optional tasks, "
+                "resources) enumerated to exhaustion with the real solver and compared with an independent z3 enumeration "
+                "of the distinct timings; non-trivial = every case; distinct = distinct case text",
+        "assumptions": ["z3 answers are consistent with the assertion stack (ConsistentAns)"],
+        "n": {"quick": 10, "thorough": 50},
+    },
+    "C13": {
+        "theorems": ["C13_base", "C13_fresh", "step_ok", "solve_ok"],
+        "profiles": [("core", 1.0)],
+        "relevant": lambda o: False,
+        "spec": None,
+        "sm_profiles": ["obj", "taskc", "core"], "run_profiles": ["obj", "taskc"],
+        "n_sm": {"quick": 150, "thorough": 3000}, "n_run": {"quick": 24, "thorough": 400},
+        "run_check": __import__("harness.solverprops", fromlist=["x"]).run_c13,
+        "nontrivial": lambda s: True,
+        "rule": "SM: random sequences (1..8) of initialize / export / solve / find_another* under both optimisers, debug, "
+                "max_iter, max_time and a scripted oracle: the push/pop/add/check trace of the real solver object must "
+                "equal the model's; RUN: the same kind of sequences with real z3, every returned schedule checked against "
+                "a fresh build of the problem and every 'no solution' against an independent satisfiability query; "
+                "distinct = distinct case text",
+        "assumptions": ["Pareto mode excluded as the property says",
+                        "explicit re-initialisation with several objectives raises (known finding F23) and is not generated"],
+        "n": {"quick": 10, "thorough": 50},
+    },
+    "C15": {
+        "theorems": ["C15_core_cfg_free", "C15_tracked_equiv", "C01_task_timing"],
+        "profiles": [("all", 0.6), ("obj", 0.4)],
+        "relevant": lambda o: True,
+        "spec": None,
+        "cfg_grid": True,
+        "sm_profiles": ["obj", "obj", "core", "buffer"], "run_profiles": ["obj", "taskc", "resc", "buffer"],
+        "n_sm": {"quick": 200, "thorough": 3000}, "n_run": {"quick": 30, "thorough": 400},
+        "run_check": __import__("harness.solverprops", fromlist=["x"]).run_c15,
+        "nontrivial": lambda s: True,
+        "rule": "ENC over the configuration grid (debug x optimizer x priority): the emitted assertions must be the model's "
+                "for every configuration; RUN: pairs of configurations from optimizer x priority x parallel x random_values "
+                "x debug x verbosity x logics (QF_LIA / QF_UFLIA only on problems inside the fragment) on small problems "
+                "with real z3: definite verdicts and optima must agree, returned schedules must satisfy a fresh build",
+        "assumptions": ["z3 behaves correctly under its parallel / random / logic options (trusted; sampled by RUN)"],
+        "n": {"quick": 90, "thorough": 1500},
+    },
+    "C19": {
+        "theorems": ["C19_listed_are_constraints", "C19_conflict", "C15_tracked_equiv"],
+        "profiles": [("taskc", 1.0)],
+        "relevant": lambda o: False,
+        "spec": None,
+        "sm_profiles": ["taskc", "buffer", "all"], "run_profiles": ["taskc", "resc", "fol", "buffer"],
+        "sm_debug": True,
+        "n_sm": {"quick": 80, "thorough": 1000}, "n_run": {"quick": 40, "thorough": 600},
+        "run_check": __import__("harness.solverprops", fromlist=["x"]).run_c19,
+        "nontrivial": lambda s: True,
+        "rule": "RUN: generated problems made infeasible by two conflicting user constraints among irrelevant ones, solved "
+                "in debug mode with real z3; the printed diagnosis is parsed: every listed item must be a constraint of "
+                "the problem and the listed constraints plus the basic task/resource/buffer rules must be unsatisfiable "
+                "(fresh z3); feasible variants check the verdict and the validity of the schedule; SM: debug-mode traces",
+        "assumptions": ["z3's unsat core is an unsatisfiable subset of the tracked assertions (trusted; re-checked by RUN)",
+                        "the 32-bit tracking identifiers are distinct"],
+        "n": {"quick": 10, "thorough": 50},
+    },
     "C02": {
         "theorems": ["C02_no_overlap", "C02_load_le_one", "C02_cumulative_capacity", "C02_busy_span",
                      "C02_selection_count", "C02_work_amount"],
@@ -213,6 +304,9 @@ def run_chunk(args):
                "sem_unknown": 0, "assertions": 0}
     try:
         for it in items:
+            if it[0] in ("sm", "run"):
+                run_solver_item(prop, tier, it, d, summary)
+                continue
             if it[0] == "seed":
                 _, sd, profile, size = it
                 script, kinds = gen.gen_script(sd, profile, size=size, thorough=(tier == "thorough"))
@@ -247,6 +341,60 @@ def run_chunk(args):
     return summary
 
 
+def run_solver_item(prop, tier, it, d, summary):
+    """SM (scripted oracle) and RUN (real z3) cases"""
+    from harness import gen, smrun, pslib
+    spec = PROPS[prop]
+    kind, sd, profile, size = it[:4]
+    rng = random.Random(sd)
+    script, kinds = gen.gen_script(sd, profile, size=size, thorough=(tier == "thorough"), simple=True)
+    label = f"{kind} seed={sd} profile={profile}"
+    summary["n"] += 1
+    if kind == "sm":
+        if rng.random() < 0.35 and not any(d["op"] == "objective" for d in script):
+            # make sure single, bounded objectives in both directions are exercised
+            tn = next((d["name"] for d in script if d["op"] == "task"), None)
+            ni = sum(1 for d in script if d["op"] == "indicator")
+            if tn is not None and all(r == "ok" for r in pslib.Real().run(script)):
+                script = script + [
+                    {"op": "indicator", "i": ("expr", "bounded_user", ("+", ("tstart", tn), 1), rng.choice([(0, 9), (1, 7), (2, 30)]))},
+                    {"op": "objective", "o": (rng.choice(["minimizeIndicator", "maximizeIndicator"]), ni, 1)}]
+        real = pslib.Real()
+        real.run(script)
+        if real.problem is None:
+            return
+        cfg, ops, answers = smrun.gen_case(rng, real, thorough=(tier == "thorough"), focus=spec.get("sm_focus"))
+        if spec.get("sm_debug"):
+            cfg["debug"] = True
+        diffs, n, _ = smrun.run_sm_case(d, script, cfg, ops, answers)
+        summary["dist"]["sm_events"] = summary["dist"].get("sm_events", 0) + n
+        for o in ops:
+            k = "sm_op:" + (o if isinstance(o, str) else o[0])
+            summary["dist"][k] = summary["dist"].get(k, 0) + 1
+        summary["dist"]["sm_cfg:" + cfg["optimizer"]] = summary["dist"].get("sm_cfg:" + cfg["optimizer"], 0) + 1
+        if len(ops) > 1 or len(answers) > 2:
+            summary["nontrivial"].append(script_key([script, cfg, ops, [a[:2] for a in answers]]))
+        if len(summary["samples"]) < 2:
+            summary["samples"].append({"label": label, "cfg": cfg, "ops": ops, "answers": [a[:2] for a in answers][:6],
+                                       "script": [pslib.to_line(x) for x in script][:8]})
+        if diffs:
+            summary["broken"].append({"label": label, "script": script, "cfg": cfg, "ops": ops, "answers": answers,
+                                      "diffs": diffs, "channel": "SM"})
+    else:
+        probe = pslib.Real()
+        if any(r != "ok" for r in probe.run(script)):
+            # a declaration was rejected (and may have left a residue): RUN cases use clean problems only
+            good = [d for d, r in zip(script, probe.results) if r == "ok"]
+            probe2 = pslib.Real()
+            if any(r != "ok" for r in probe2.run(good)):
+                summary["dist"]["run_skipped_rejected_declaration"] = summary["dist"].get("run_skipped_rejected_declaration", 0) + 1
+                return
+            script = good
+        viol = spec["run_check"](script, rng, summary)
+        if viol:
+            summary["violations"].append({"label": label, "script": script, "kind": "RUN", **viol})
+
+
 def corpus_items(prop):
     items = []
     for pat in (os.path.join(VERIF, "corpus", "common", "*.json"), os.path.join(VERIF, "corpus", prop, "*.json")):
@@ -273,10 +421,22 @@ def seeds_for(prop, seed, n, profiles, tier):
     return items
 
 
+def solver_items(prop, seed, tier, spec):
+    rng = random.Random(f"{prop}-{seed}-{tier}-solver")
+    items = []
+    for kind in ("sm", "run"):
+        n = spec.get("n_" + kind, {}).get(tier, 0)
+        for _ in range(n):
+            prof = rng.choice(spec.get(kind + "_profiles", ["obj"]))
+            items.append((kind, rng.randrange(10 ** 9), prof, rng.choice([5, 7, 9])))
+    return items
+
+
 def run_channels(prop, rep):
     spec = PROPS[prop]
     n = spec["n"][rep.tier if rep.tier in spec["n"] else "quick"]
-    items = corpus_items(prop) + seeds_for(prop, rep.seed, n, spec["profiles"], rep.tier)
+    items = corpus_items(prop) + seeds_for(prop, rep.seed, n, spec["profiles"], rep.tier) + \
+        solver_items(prop, rep.seed, rep.tier, spec)
     workers = min(14, max(1, (os.cpu_count() or 2) - 2)) if len(items) > 60 else 1
     chunks = [items[i::workers] for i in range(workers)]
     if workers == 1:
@@ -296,7 +456,7 @@ def run_channels(prop, rep):
         rep.count("scripts_with_differences_outside_this_property", s["other"])
         rep.count("sem_unknown", s["sem_unknown"])
         rep.count("assertions_compared", s["assertions"])
-    rep.oblige(not broken, f"ENC correspondence ({len(broken)} of {rep.evaluations} scripts differ on formulas this property uses)")
+    rep.oblige(not broken, f"correspondence ENC/SM ({len(broken)} of {rep.evaluations} cases differ on what this property uses)")
     rep.oblige(not viols, f"SEM: no admitted schedule of the real code violates spec{spec.get('spec')}")
     seen = set()
     for v in viols[:5]:
